@@ -846,5 +846,4 @@ FUNC_MODELS = {
     re.findall: m_re_fn("findall"),
     urllib.parse.quote: m_quote,
     unicodedata.normalize: m_normalize,
-    html.unescape: m_unescape,
 }
